@@ -27,7 +27,47 @@ ND = ['disjointness of live blocks', 'alignment of results', 'scalable_msize >= 
 LOCKCLS = lambda c: c.endswith('scoped_lock')   # noqa: E731
 
 
+def d5_remap_alone(facts, rep):
+    """scalable_realloc of a large object may move / resize the whole OS mapping (mremap) instead of copying.  That is legal only
+    for a region that holds this one block and nothing else (MEMREG_ONE_BLOCK): a region with several blocks contains other
+    live objects and free-list links, which mremap would unmap, move or overwrite.  Rule: every call that remaps or unmaps
+    a region on the realloc path (mremap) is dominated by a branch edge on which the region's type is known to be
+    MEMREG_ONE_BLOCK.  (A MALLOC_ASSERT is not a branch in the shipped configuration.)"""
+    n = 0
+    for fn in facts.fns.values():
+        if not fn.p.startswith(RI):
+            continue
+        rm = [c for c in calls(fn) if (c[3] or {}).get('n') == 'mremap']
+        if not rm:
+            continue
+        asserts = fn.assertion_nodes()
+
+        def alone(a, truth):
+            x = fn.strip(a)
+            if x in asserts:
+                return False
+            nd = fn.n(x)
+            if nd.get('k') != 'binop' or nd['op'] not in ('==', '!='):
+                return False
+            sides = [fn.n(fn.strip(nd['l'])), fn.n(fn.strip(nd['r']))]
+            has_type = any(last_member(fn, y) == 'type' for y in (nd['l'], nd['r']))
+            one = any(sd.get('k') == 'enum' and sd.get('n') == 'MEMREG_ONE_BLOCK' for sd in sides) or \
+                any(any(fn.nodes[z].get('k') == 'enum' and fn.nodes[z].get('n') == 'MEMREG_ONE_BLOCK' for z in fn.subtree(y)) for y in (nd['l'], nd['r']))
+            return has_type and one and (truth == (nd['op'] == '=='))
+        e = edges_where(fn, alone)
+        for pos, sx, node, d in rm:
+            n += 1
+            ok, wit = dominated_by_edges(fn, pos, e)
+            rep.ob('D5', 'K4', fn, 'a region is remapped (mremap) only when the block is alone in it (MEMREG_ONE_BLOCK)', ok,
+                   'a large block that was carved from a multi-block region is the last block of a region that also holds other live '
+                   'objects: remapping the region unmaps / moves / overwrites them (' + wit + ')', ln=node['ln'], key_extra='remap|%s' % node['ln'])
+    if n < 1:
+        raise AnalysisBroken('no mremap call found in the allocator back end (Backend::remap)')
+    rep.floor('D5', 1, 'remap guard')
+
+
 def run(facts, rep):
+    d5_remap_alone(facts, rep)
     d1_free(facts, rep)
     d2_contents(facts, rep)
     d3_backend(facts, rep)
